@@ -80,21 +80,21 @@ theorem namedPair_short {f : Rd Nat} {L : Nat} (hf : Short f L) : Short (namedPa
   intro s hs
   unfold namedPair
   refine Spec.bind (Spec.u16 s) (fun ⟨name, s1⟩ h1 => ?_)
-  have h1' : s.length = s1.length + 2 := h1
+  have h1' : s.length = s1.length + 2 := h1.1
   refine Spec.bind (Spec.guard _) (fun _ _ => ?_)
   exact Spec.weaken (hf s1 (by omega)) (fun r hr => by have : r.2.length ≤ s1.length := hr; omega)
 
 theorem constIndex_short (p : Nat → Bool) (s : Bytes) : Spec [] 0 (constIndex p s) (fun r => r.2.length ≤ s.length) := by
   unfold constIndex
   refine Spec.bind (Spec.u16 s) (fun ⟨i, s1⟩ h1 => ?_)
-  have h1' : s.length = s1.length + 2 := h1
+  have h1' : s.length = s1.length + 2 := h1.1
   refine Spec.bind (Spec.guard _) (fun _ _ => ?_)
   exact Spec.ret _ (by show s1.length ≤ s.length; omega)
 
 /-- a leaf shorter than its input -/
 theorem leaf_short {m : TM (Nat × Bytes)} {s1 s : Bytes} (h : Spec [] 0 m (fun r => r.2.length ≤ s1.length))
     (hs : s1.length ≤ s.length) : Spec [] 0 m (fun r => r.2.length ≤ s.length) :=
-  Spec.weaken h (fun r hr => Nat.le_trans hr hs)
+  Spec.weaken h (fun _ hr => Nat.le_trans hr hs)
 
 theorem readValue_short : ∀ gas level s, s.length + 1 ≤ 3 * gas →
     Spec [] 0 (readValue gas level s) (fun r => r.2.length ≤ s.length)
@@ -105,7 +105,7 @@ theorem readValue_short : ∀ gas level s, s.length + 1 ≤ 3 * gas →
     unfold readValue
     refine Spec.bind (Spec.enter _) (fun _ _ => ?_)
     refine Spec.bind (Spec.u8 s) (fun ⟨tag, s1⟩ h1 => ?_)
-    have h1' : s.length = s1.length + 1 := h1
+    have h1' : s.length = s1.length + 1 := h1.1
     have hle : s1.length ≤ s.length := by omega
     dsimp only
     split
@@ -120,24 +120,24 @@ theorem readValue_short : ∀ gas level s, s.length + 1 ≤ 3 * gas →
     · exact leaf_short (constIndex_short _ s1) hle
     split
     · refine Spec.bind (Spec.u16 s1) (fun ⟨t, s2⟩ h2 => ?_)
-      have h2' : s1.length = s2.length + 2 := h2
+      have h2' : s1.length = s2.length + 2 := h2.1
       refine Spec.bind (Spec.guard _) (fun _ _ => ?_)
       exact leaf_short (constIndex_short _ s2) (by omega)
     split
     · exact leaf_short (constIndex_short _ s1) hle
     split
     · refine Spec.bind (Spec.u16 s1) (fun ⟨t, s2⟩ h2 => ?_)
-      have h2' : s1.length = s2.length + 2 := h2
+      have h2' : s1.length = s2.length + 2 := h2.1
       refine Spec.bind (Spec.guard _) (fun _ _ => ?_)
       refine Spec.bind (Spec.u16 s2) (fun ⟨n, s3⟩ h3 => ?_)
-      have h3' : s2.length = s3.length + 2 := h3
+      have h3' : s2.length = s3.length + 2 := h3.1
       have hsh : Short (namedPair (readValue gas (level + 1))) s3.length := namedPair_short (ih s3.length (by omega))
       refine Spec.bind (iterMax_short hsh n 0 s3 (Nat.le_refl _)) (fun ⟨d, s4⟩ h4 => ?_)
       have h4' : s4.length ≤ s3.length := h4
       exact Spec.ret _ (by show s4.length ≤ s.length; omega)
     split
     · refine Spec.bind (Spec.u16 s1) (fun ⟨n, s2⟩ h2 => ?_)
-      have h2' : s1.length = s2.length + 2 := h2
+      have h2' : s1.length = s2.length + 2 := h2.1
       refine Spec.bind (iterMax_short (ih s2.length (by omega)) n 0 s2 (Nat.le_refl _)) (fun ⟨d, s3⟩ h3 => ?_)
       have h3' : s3.length ≤ s2.length := h3
       exact Spec.ret _ (by show s3.length ≤ s.length; omega)
@@ -148,5 +148,39 @@ overflow (and no other panic) -/
 theorem readValue_depth_bound (gas level : Nat) (s : Bytes) (h : s.length / 3 + 1 ≤ gas) :
     PanicsIn [] (readValue gas level s) :=
   (readValue_short gas level s (by omega)).panicsIn
+
+/-! ## for every stack there is an input of `3·gas + 3` bytes that exhausts it -/
+
+theorem nested_length (d : Nat) : (nested d).length = 3 * d + 3 := by
+  induction d with
+  | zero => rfl
+  | succ d ih => simp [nested, ih]; omega
+
+theorem nested_overflows : ∀ gas level rest st,
+    (readValue gas level (nested gas ++ rest) st).1 = .panic Sites.stackElementValue
+  | 0, level, rest, st => by
+    simp [readValue, bnd_apply, enter_apply, crash_apply]
+  | gas + 1, level, rest, st => by
+    have ih := nested_overflows gas (level + 1) rest
+    show (readValue (gas + 1) level (91 :: 0 :: 1 :: (nested gas ++ rest)) st).1 = _
+    unfold readValue
+    rw [bnd_apply, enter_apply]
+    dsimp only
+    rw [bnd_apply]
+    simp only [u8, ret_apply, show byte 91 = 91 by decide]
+    simp only [show ¬ (91 = 66 ∨ 91 = 67 ∨ 91 = 73 ∨ 91 = 83 ∨ 91 = 90) by decide, if_false,
+      show ¬ ((91 : Nat) = 68) by decide, show ¬ ((91 : Nat) = 70) by decide, show ¬ ((91 : Nat) = 74) by decide,
+      show ¬ ((91 : Nat) = 115) by decide, show ¬ ((91 : Nat) = 101) by decide, show ¬ ((91 : Nat) = 99) by decide,
+      show ¬ ((91 : Nat) = 64) by decide, if_true]
+    rw [bnd_apply]
+    simp only [u16, ret_apply, show byte 0 * 256 + byte 1 = 1 by decide]
+    apply bind_panic
+    unfold iterMax
+    exact bind_panic (ih _)
+
+theorem annoOp_nested_overflows (gas : Nat) (st : Acct) :
+    (annoOp gas (nested gas) st).1 = .panic Sites.stackElementValue := by
+  unfold annoOp
+  exact bind_panic (nested_overflows gas 1 [0, 0] st)
 
 end Total.Anno
